@@ -7,6 +7,7 @@ package c20
 import (
 	"fmt"
 	"runtime"
+	"strings"
 	"testing"
 	"testing/synctest"
 	"time"
@@ -158,11 +159,16 @@ func TestCheck(t *testing.T) {
 		if err := mc.LoadReplay(f, &rp); err != nil {
 			t.Fatal(err)
 		}
+		engine := strings.HasPrefix(rp.Script, "engine:")
+		rp.Script = strings.TrimPrefix(rp.Script, "engine:")
 		script := make([]bool, len(rp.Script))
 		for i := range rp.Script {
 			script[i] = rp.Script[i] == 'T'
 		}
 		o, c := runScript(t, script, rp.Setting)
+		if engine {
+			o, c, _ = runEngineScript(t, script, rp.Setting)
+		}
 		v := oracle(o, c, rp.Setting)
 		fmt.Printf("replay script=%s setting=%+v observations=%v callbacks=%v -> %q\n", rp.Script, rp.Setting, o, c, v)
 		if v != "" {
@@ -183,7 +189,7 @@ func TestCheck(t *testing.T) {
 			}
 		}
 	}
-	r.Rule = fmt.Sprintf("every boolean observation script of length 1..%d x check interval in {1 s, 2 s} x ConsecutiveN in {1,2,3} x MinStablePeriod in {0, 1, 1.5, 2} check intervals x CooldownPeriod in {0, 1, 2.5, 3} intervals, run through the real StateChangeWatcher loop in a virtual-time bubble; non-trivial = run with at least one reaction; distinct = (script, setting)", maxLen)
+	r.Rule = fmt.Sprintf("every boolean observation script of length 1..%d x check interval in {1 s, 2 s} x ConsecutiveN in {1,2,3} x MinStablePeriod in {0, 1, 1.5, 2} check intervals x CooldownPeriod in {0, 1, 2.5, 3} intervals, run through the real StateChangeWatcher loop in a virtual-time bubble; plus the watcher as the engine builds it (settings from the DIAGNOSIS_FAILSAFE_* variables, health from a scripted statistics page, reactions observed as the reverts of a real policies accessor): scripts to length 7 x 24 settings incl. stable periods that are not multiples of the interval; non-trivial = run with at least one reaction; distinct = (script, setting)", maxLen)
 	r.Assume("predicate and callbacks take no virtual time",
 		"only-if reading of the statement: a missing reaction is reported as an outcome, not as a violation")
 	if r.Parallel(t, 16) {
@@ -225,5 +231,6 @@ func TestCheck(t *testing.T) {
 			}
 		}
 	}
+	engineFamily(t, r, &idx)
 	r.Finish(t)
 }
